@@ -60,6 +60,8 @@ pub struct GenCfg {
     pub no_glue_with_tags: bool,
     /// functions call later functions (as a statement or at the start of a line), both printing text
     pub nested_functions: bool,
+    /// tags inside choice lines (on the text before, inside and after the brackets)
+    pub choice_tags: bool,
 }
 
 impl GenCfg {
@@ -105,6 +107,7 @@ impl GenCfg {
             plain_choice_text: false,
             no_glue_with_tags: false,
             nested_functions: false,
+            choice_tags: false,
         }
     }
     /// everything, including the nondeterministic-looking features (for lockstep oracles)
@@ -841,6 +844,31 @@ impl<'a> Builder<'a> {
     }
 
     fn choice_text(&mut self) -> (Vec<Inline>, Option<Vec<Inline>>, Vec<Inline>) {
+        let (mut st, mut only, mut end) = self.choice_text_untagged();
+        if self.cfg.choice_tags && self.cfg.tags {
+            if !st.is_empty() && self.rng.chance(1, 5) {
+                // the tag goes before the space that separates the text from the bracket
+                let trailing_space = matches!(st.last(), Some(Inline::Text(t)) if t == " ");
+                if trailing_space {
+                    st.pop();
+                }
+                // (whatever follows a tag up to the bracket is part of the tag, so no space is written after it)
+                st.push(Inline::Tag(format!("t{}", self.marker())));
+            }
+            if let Some(o) = only.as_mut()
+                && !o.is_empty()
+                && self.rng.chance(1, 5)
+            {
+                o.push(Inline::Tag(format!("t{}", self.marker())));
+            }
+            if !end.is_empty() && self.rng.chance(1, 5) {
+                end.push(Inline::Tag(format!("t{}", self.marker())));
+            }
+        }
+        (st, only, end)
+    }
+
+    fn choice_text_untagged(&mut self) -> (Vec<Inline>, Option<Vec<Inline>>, Vec<Inline>) {
         let simple = self.rng.chance(2, 3);
         // spaces are written outside the brackets ("start [only] end"), the documented layout
         match self.rng.below(5) {
